@@ -8,6 +8,7 @@ package main
 import (
 	"errors"
 	"os"
+	"strings"
 
 	goconfig "github.com/TheCacophonyProject/go-config"
 	cptv "github.com/TheCacophonyProject/go-cptv"
@@ -86,11 +87,25 @@ func ZZ_C11_start() {
 	zzFailNew, zzFailHdr = zzBool("failNew", 0), zzBool("failHdr", 0)
 	zzReach("recorder built")
 
+	if !zzSymbolic() {
+		// native fault injection for the first start: an output directory that does
+		// not exist makes file creation fail; an over-long device name makes the
+		// header write fail
+		if zzFailNew {
+			fr.outputDir = "/nonexistent-zz-dir"
+		} else if zzFailHdr {
+			fr.header.DeviceName = strings.Repeat("x", 300)
+		}
+	}
 	err1 := fr.StartRecording(bg1, th1)
+	if !zzSymbolic() {
+		fr.outputDir = conf.OutputDir
+		fr.header.DeviceName = conf.DeviceName
+	}
 	if zzFailNew || zzFailHdr {
 		zzReach("first start fails")
 		zzAssert(err1 != nil && fr.writer == nil, "C12: a failed start leaves the recorder closed")
-		if zzFailHdr && !zzFailNew {
+		if zzFailHdr && !zzFailNew && zzSymbolic() {
 			zzAssert(zzClosedN == 1, "C10/C12: the writer of a failed start is closed")
 		}
 	} else {
@@ -100,7 +115,10 @@ func ZZ_C11_start() {
 	zzFailNew, zzFailHdr = false, false
 	n0 := zzHdrN
 	err2 := fr.StartRecording(bg2, th2)
-	zzAssert(err2 == nil && zzHdrN == n0+1, "C11: one header per recording")
+	zzAssert(err2 == nil, "C11: the next recording starts normally")
+	if zzSymbolic() {
+		zzAssert(zzHdrN == n0+1, "C11: one header per recording")
+	}
 	zzReach("second recording started")
 	if zzSymbolic() {
 		h := zzHdrs[n0]
